@@ -269,13 +269,15 @@ def rand_polygon(rng, where=None, kind=None):
     lat = rng.uniform(-1.2, 1.2) if where is None else where[0]
     lng = rng.uniform(-3.1, 3.1) if where is None else where[1]
     radius = rng.choice([0.002, 0.01, 0.03, 0.08])
-    if kind == "anti":
+    if kind in ("anti", "anti-needle"):
         lng = _m.pi - rng.uniform(0, radius * 0.8) * rng.choice([-1, 1])
     n = rng.randrange(3, 9)
     if kind == "concave":
         outer = ngon(lat, lng, radius, 2 * n, None, phase=rng.uniform(0, 1))
         outer = [(la if i % 2 == 0 else lat + (la - lat) * 0.45, ln if i % 2 == 0 else lng + (ln - lng) * 0.45)
                  for i, (la, ln) in enumerate(outer)]
+    elif kind == "anti-needle":
+        outer = ngon(lat, lng, radius, 4, None, phase=rng.uniform(-0.3, 0.3), squash=0.03)
     elif kind == "needle":
         outer = ngon(lat, lng, radius, 4, None, phase=rng.uniform(0, 3), squash=0.02)
     elif kind == "tiny":
